@@ -8,6 +8,7 @@ import (
 	"verif/harness/core"
 	"verif/harness/gen"
 	"verif/harness/pgwire"
+	"verif/harness/script"
 )
 
 func TestMain(m *testing.M) {
@@ -39,6 +40,14 @@ func genCase(t *rapid.T) Case {
 		}
 	}
 	c.Other = c.Extended && rapid.IntRange(0, 2).Draw(t, "other-portal") == 0
+	if rapid.IntRange(0, 3).Draw(t, "rejected-row?") == 0 {
+		// a row with a value no codec can encode, somewhere among the good rows: it is refused (Row
+		// returns an error, nothing of it is sent) and the rows around it arrive intact
+		bad := gen.Row(c.Cols, 0, false).Draw(t, "bad-row")
+		bad[rapid.IntRange(0, nc-1).Draw(t, "bad-at")].Bad = true
+		at := rapid.IntRange(0, len(c.Rows)).Draw(t, "bad-row-at")
+		c.Rows = append(c.Rows[:at:at], append([][]script.Val{bad}, c.Rows[at:]...)...)
+	}
 	c.TLS = rapid.IntRange(0, 7).Draw(t, "inside-tls") == 3
 	c.End = rapid.SampledFrom([]string{"", "", "", "", "error", "panic"}).Draw(t, "end")
 	return c
